@@ -372,6 +372,12 @@ func (m *progressMon) Observe(h *Hand, t *Trans) *vlib.Violation {
 		if cp < 0 || cp >= len(post.Players) || len(post.Players[cp].AllowedActions) == 0 {
 			return vlib.V("C06", "nothing-offered", "after %s the hand waits for seat %d, who is offered nothing", t.Op, cp)
 		}
+		// the single thing it is waiting for: nobody else is asked at the same time
+		for _, q := range post.Players {
+			if q.Idx != cp && len(q.AllowedActions) > 0 {
+				return vlib.V("C06", "waits-for-two-seats", "after %s the hand waits for seat %d and for seat %d (offered %v) at the same time", t.Op, cp, q.Idx, q.AllowedActions)
+			}
+		}
 	default:
 		return vlib.V("C06", "unexpected-wait-event/"+post.Status.CurrentEvent, "after %s the hand waits in event %q", t.Op, post.Status.CurrentEvent)
 	}
